@@ -51,9 +51,12 @@ func (state *singleRateLimitState) TryToIncrement(
 	state.windowData = windowData
 	state.ensureWindowIsUpdated()
 
-	maxAllowedInWindows := int64(math.Ceil(float64(
-		windowData.AllowedRequestCount+state.spillover) *
-		windowData.QuotaAllocationRatio))
+	// The ratio is a percentage divided by 100, so the product can land a hair
+	// above the exact share (100 * 0.07 = 7.000000000000001): drop that
+	// floating-point noise before rounding up, or the share grows by one.
+	share := float64(windowData.AllowedRequestCount+state.spillover) *
+		windowData.QuotaAllocationRatio
+	maxAllowedInWindows := int64(math.Ceil(math.Round(share*1e9) / 1e9))
 	if state.counter >= maxAllowedInWindows {
 		return CurrentLimitState{state.counter, Block}
 	}
